@@ -82,17 +82,27 @@ Definition ex_world : node :=
 Example C31_example :
   wf ex_world = true /\
   (* bytes 3..5 of the file: the second chunk only, plus the inner blocks above it and the directory *)
-  needed ex_world (Build_creq [7] SEntity (Some (3, Some 5)) false) = Some [0; 1; 2; 4] /\
-  required ex_world (Build_creq [7] SEntity (Some (3, Some 5)) false) = Some [0; 1; 2; 4] /\
+  needed ex_world (Build_creq [7] SEntity (Some (3, Some 5)) false 0 0 false) = Some [0; 1; 2; 4] /\
+  required ex_world (Build_creq [7] SEntity (Some (3, Some 5)) false 0 0 false) = Some [0; 1; 2; 4] /\
   (* the last 4 bytes *)
-  needed ex_world (Build_creq [7] SEntity (Some (-4, None)) false) = Some [0; 1; 5; 6; 8] /\
+  needed ex_world (Build_creq [7] SEntity (Some (-4, None)) false 0 0 false) = Some [0; 1; 5; 6; 8] /\
   (* to before from after normalisation: error, root of the file only *)
   norm 10 (Some (5, Some (-7))) = NErr /\
-  needed ex_world (Build_creq [7] SEntity (Some (5, Some (-7))) false) = Some [0; 1] /\
+  needed ex_world (Build_creq [7] SEntity (Some (5, Some (-7))) false 0 0 false) = Some [0; 1] /\
   (* an entry two shards deep, block scope; the HAMT as an entity; everything *)
-  needed ex_world (Build_creq [8; 20] SBlock None false) = Some [0; 9; 10; 11] /\
-  needed ex_world (Build_creq [8] SEntity None false) = Some [0; 9; 10] /\
-  needed ex_world (Build_creq [] SAll None true) = Some [0; 1; 2; 3; 4; 5; 6; 8; 9; 10; 11; 12] /\
+  needed ex_world (Build_creq [8; 20] SBlock None false 0 0 false) = Some [0; 9; 10; 11] /\
+  needed ex_world (Build_creq [8] SEntity None false 0 0 false) = Some [0; 9; 10] /\
+  needed ex_world (Build_creq [] SAll None true 0 0 false) = Some [0; 1; 2; 3; 4; 5; 6; 8; 9; 10; 11; 12] /\
+  (* configuration and parameters: a size limit below the content answers 410, at the content size it changes
+     nothing; from after to with the same sign and unknown parameter values answer 400 *)
+  expected_status (Build_creq [7] SEntity None false 9 10 false) = 410 /\
+  expected_status (Build_creq [7] SEntity None false 10 10 false) = 200 /\
+  expected_status (Build_creq [7] SEntity (Some (5, Some 2)) false 0 10 false) = 400 /\
+  expected_status (Build_creq [7] SEntity (Some (5, Some (-7))) false 0 10 false) = 200 /\
+  check_case (Case ex_world (Build_creq [7] SBlock None false 4096 10 false)
+                   (Build_cobs 200 1 [1] true false)) = VSpecFail /\   (* path block 0 missing: not sufficient *)
+  check_case (Case ex_world (Build_creq [7] SBlock None false 4096 10 false)
+                   (Build_cobs 200 1 [0; 1] true false)) = VOk /\
   read full 3 6 0 ex_file = Some [(4, 0, 3)] /\
   read (fun x => negb (x =? 4)) 3 6 0 ex_file = None.
 Proof. vm_compute. repeat split. Qed.
